@@ -66,10 +66,13 @@ def gen_case(rng, systems):
     cell_env = [rng.randrange(len(envs)) for _ in range(N)]
     species, dens_tab, chs_tab = [], [], []
     own_sys, node_sys = [], []
+    # labels are arbitrary texts without blanks: digits only (not to be taken for an index), one a prefix of another,
+    # non-ASCII letters, long ones
+    labelset = rng.choice([["A", "B", "C"], ["1", "0", "12"], ["2", "1", "0"], ["S", "SS", "S_"], ["µ", "Ca2", "a-very-long-label_42"], ["x", "X", "x1"]])
     for s in range(nS):
         ssys = rng.choice(systems) if rng.random() < 0.5 else None          # None = given the network's system explicitly
         eff = ssys or net_sys
-        kw = {"label": "ABC"[s], "units_system": UnitsSystem(*eff)}
+        kw = {"label": labelset[s], "units_system": UnitsSystem(*eff)}
         own_sys.append(ssys)
         tab = ["none"] * (len(envs) + 1)
         mode = rng.choice(["scalar", "dict", "dict-default", "absent", "explicit-unit"])
